@@ -23,7 +23,7 @@
   predicate `NestedUnterminated` as its extra hypothesis.  A bundle written by `rtosc_bundle`
   into a buffer at least 4 bytes larger than the bundle satisfies it (the buffer is cleared first).
 -/
-import RtoscModel.Proofs.BundleRead
+import RtoscModel.Proofs.BundleDecompose
 namespace Rtosc.Osc
 open Rtosc
 
@@ -82,12 +82,8 @@ example : ¬ NestedUnterminated [.bundle 1 []] [k4Inner ++ [0, 0, 0, 0]] := by d
 
 /-- **bundleP_encode** — the encoding of a bundle is recognised as a bundle. -/
 theorem bundleP_encode (tt : UInt64) (es : List Elem) (rest : Bytes) :
-    bundleP (Spec.encodeElem (.bundle tt es) ++ rest) = some true := by
-  unfold bundleP
-  rw [magicU_eq, List.drop_zero]
-  have : Spec.encodeElem (.bundle tt es) ++ rest =
-      bundleMagic ++ (be64 tt ++ (Spec.encodeElems es ++ rest)) := by simp [Spec.encodeElem]
-  rw [this]; exact magicL_magic _
+    bundleP (Spec.encodeElem (.bundle tt es) ++ rest) = some true :=
+  bundleP_bundle tt es rest
 
 /-- **elements_encode** — `rtosc_bundle_elements(buffer, len)` with `len` = the length of the
     bundle reports the number of elements, whatever follows the bundle in memory (nothing is read
@@ -95,13 +91,8 @@ theorem bundleP_encode (tt : UInt64) (es : List Elem) (rest : Bytes) :
 theorem elements_encode (tt : UInt64) (es : List Elem) (rest : Bytes)
     (hsz : (Spec.encodeElem (.bundle tt es)).length < 4294967296) :
     bundleElements (Spec.encodeElem (.bundle tt es) ++ rest) (Spec.encodeElem (.bundle tt es)).length =
-      .ok es.length := by
-  have hl := encodeElem_bundle_length tt es
-  have hle := elems_length_le es
-  unfold bundleElements
-  rw [elementsLoop_spec _ es 16 0 _ rest (drop16_bundle tt es rest) (by unfold SmallElems; omega)
-    (by omega) (Or.inl (by omega))]
-  simp
+      .ok es.length :=
+  bundleElements_exact tt es rest hsz
 
 /-- **elements_encode_padded** — with a larger `len` (the capacity of the buffer) the word behind
     the last element is read; when it is the zero word `rtosc_bundle` left there, the count is
@@ -128,22 +119,8 @@ theorem fetch_size_encode (tt : UInt64) (es : List Elem) (rest : Bytes) (i : Nat
     bundleSize (Spec.encodeElem (.bundle tt es) ++ rest) i = some (Spec.encodeElem es[i]).length ∧
     ((Spec.encodeElem (.bundle tt es) ++ rest).drop (Spec.elemOffset es i)).take
         (Spec.encodeElem es[i]).length = Spec.encodeElem es[i] := by
-  have hl := encodeElem_bundle_length tt es
-  have hle := elems_length_le es
-  have hs : SmallElems es := by unfold SmallElems; omega
-  have hd := drop16_bundle tt es rest
-  refine ⟨?_, ?_, ?_⟩
-  · unfold bundleFetch
-    rw [fetchLoop_spec es i 16 rest hd hi hs]
-    simp only [Spec.elemOffset]; congr 2; omega
-  · unfold bundleSize
-    rw [u32_id (by omega)]
-    exact bsizeLoop_spec es i 16 0 rest hi hd hs
-  · have h1 := drop_elem es i 16 rest hi hd
-    have h2 := drop_add_of_drop h1
-    rw [be32_length] at h2
-    have : Spec.elemOffset es i = 16 + Spec.elemRel es i + 4 := by simp only [Spec.elemOffset]; omega
-    rw [this, h2, List.take_left]
+  obtain ⟨hf, hs, hv⟩ := elem_view tt es rest i hi hsz
+  exact ⟨hf, hs, by rw [hv, List.take_left]⟩
 
 /-- **timetag_encode** — the time tag is preserved, all 64 bits. -/
 theorem timetag_encode (tt : UInt64) (es : List Elem) (rest : Bytes) :
@@ -179,6 +156,28 @@ theorem message_not_bundle_osc (m : Msg) (rest : Bytes) (hwf : m.WF) (hosc : m.a
   have : m.addr ≠ bundleName := by
     intro h; rw [h] at hosc; simp [bundleName] at hosc
   simp [this]
+
+/-- **decompose_encode** — lossless for every nesting depth: taking an encoded packet apart with
+    `rtosc_bundle_p`, `rtosc_bundle_timetag`, `rtosc_bundle_elements`, `rtosc_bundle_fetch` and
+    `rtosc_bundle_size`, recursively into every nested bundle, gives back exactly the structure
+    that was encoded — every time tag, every element count, every message byte-identical — whatever
+    follows the packet in memory.  By mutual structural induction over `Elem` / `List Elem`. -/
+theorem decompose_encode (e : Elem) (rest : Bytes) (d : Nat) (hwf : e.WF) (hd : e.depth < d) :
+    decompose d (Spec.encodeElem e ++ rest) (Spec.encodeElem e).length = .ok e.packet :=
+  decompose_spec e rest d hwf hd
+
+/-- **compose_decompose** — `rtosc_bundle` followed by the recursive decomposition of the `ret`
+    bytes it reports is the identity on the elements (under the precondition of
+    `bundle_eq_spec_partial`). -/
+theorem compose_decompose (es : List Elem) (blks : List Bytes) (tt : UInt64) (buf : Bytes) (d : Nat)
+    (hwf : Elems.WF es) (hb : BlocksHold es blks) (hk4 : ¬ NestedUnterminated es blks)
+    (hsz : (Spec.encodeElem (.bundle tt es)).length < 4294967296)
+    (hfit : (Spec.encodeElem (.bundle tt es)).length ≤ buf.length) (hd : Elems.depth es + 1 < d) :
+    ∃ r, bundle buf tt blks = .ok r ∧ decompose d r.buf r.ret = .ok (.bundle tt (Elems.packets es)) := by
+  refine ⟨_, bundle_eq_spec_partial es blks tt buf hwf hb hk4 hsz hfit, ?_⟩
+  have := decompose_encode (.bundle tt es) (zeros (buf.length - (Spec.encodeElem (.bundle tt es)).length)) d
+    (by simp only [Elem.WF]; exact ⟨hwf, hsz⟩) (by simp only [Elem.depth]; exact hd)
+  simpa only [Elem.packet] using this
 
 /-- **appendBundle_eq_spec** — `append_bundle` (the way `subtree_serialize` grows its bundle):
     if `max_len` (at most the destination block) has room for 4 + `src_len` more bytes, the
@@ -234,6 +233,12 @@ example : bundleP c08MsgBytes = some false := by decide +kernel
 /-- one level down: the fetched element is a bundle again -/
 example : bundleP ((Spec.encodeElem (.bundle 1 c08Outer)).drop 40) = some true := by decide +kernel
 example : bundleElements ((Spec.encodeElem (.bundle 1 c08Outer)).drop 40) 36 = .ok 1 := by decide +kernel
+/-- the whole tree comes back: depth 2, fuel 3 -/
+example : Elem.depth (.bundle 1 c08Outer) = 2 := by decide +kernel
+example : (match decompose 3 (Spec.encodeElem (.bundle 1 c08Outer)) 76 with
+    | .ok (.bundle t1 [.msg a, .bundle t2 [.msg b]]) =>
+      t1 == 1 && t2 == 0xdeadbeefcafebaad && a == c08MsgBytes && b == c08MsgBytes
+    | _ => false) = true := by decide +kernel
 /-- the address "#bundle" is the one message that is taken for a bundle -/
 example : bundleP (Spec.encode ⟨bundleName, [], []⟩) = some true := by decide +kernel
 
